@@ -417,6 +417,19 @@ class C05(Prop):
                     out.append(mk_case("flatten", inners, evs, f, kind="spelling"))
                     out.append(mk_case("inf", inners, evs, f, via="flatmap", kind="spelling"))
                     out.append(mk_case("concat", inners, evs, f, via="concatmap", kind="spelling"))
+        # ---- a QUEUED cold inner that errors when `InnerObserver::complete` starts it from the queue: the error
+        # empties the cell, so whatever the still subscribed hot inners / the outer stream do afterwards is silent
+        # (model: `alive := false` in the `.cold xs (.error e)` arm of `MergeAll.drain`; found unexercised by
+        # tools/model_mutants.py: the random histories reach that arm but never continue after it)
+        for nitems in (0, 1, 2):
+            inners = [hot(0), hot(1), cold(2, nitems, ["e", "5"])]
+            head = [["outer", ["o", "0"]], ["outer", ["o", "1"]], ["outer", ["o", "2"]], ["inner", "0", "c"]]
+            for tail in ([["inner", "1", ["n", "201"]], ["inner", "1", "c"], ["outer", "c"]],
+                         [["outer", ["o", "1"]], ["inner", "1", ["n", "201"]], ["outer", "c"], ["inner", "1", "c"]],
+                         [["inner", "1", ["e", "7"]], ["outer", ["e", "3"]]],
+                         [["outer", "c"], ["inner", "1", ["n", "201"]], ["inner", "1", "c"]]):
+                for f in flavors:
+                    out.append(mk_case(2, inners, head + tail, f, kind="queued-error"))
         # ---- random larger histories
         nrand = 6000 if quick else 60000
         for _ in range(nrand):
